@@ -355,6 +355,8 @@ fn random_case(rng: &mut Rng) -> (String, Vec<String>) {
         1 | 2 | 3 => 1,
         _ => 2 + rng.below(5),
     };
+    // one case in fifty has a long list (33..80 entries: selection routines switch algorithm with the size)
+    let n = if rng.chance(1, 50) { 33 + rng.below(48) } else { n };
     let mut accepted: Vec<Vec<char>> = vec![];
     for _ in 0..n {
         let c = match rng.below(12) {
@@ -431,6 +433,27 @@ pub fn run(ctx: &Ctx) -> i32 {
                 }
             }
             observe(&mut acc, "abcd", &[], "compound_shapes");
+            // long accepted lists (33..80 names) with several names tied at the minimal distance, not ordered by
+            // distance: "the earliest of the closest" must survive whatever selection / sorting routine is used
+            for n in [33usize, 40, 47, 64, 65, 80] {
+                for shift in 0..6usize {
+                    let received = "sortt";
+                    let mut names: Vec<String> = (0..n).map(|i| format!("unrelated_name_{i:02}")).collect();
+                    let first = (7 * shift + 3) % (n - 4);
+                    let second = first + 1 + (shift * 11) % (n - first - 1);
+                    names[first] = "sorts".into(); // distance 1
+                    names[second] = "sort".into(); // distance 1 too, later in the list
+                    if shift % 2 == 0 {
+                        names[(first + second) / 2] = "sorrt".into(); // a third one in between (when distinct index)
+                    }
+                    names[n - 1] = "sortta".into();
+                    let refs: Vec<&str> = names.iter().map(|s| s.as_str()).collect();
+                    observe(&mut acc, received, &refs, "long_lists_with_ties");
+                    let mut rev = refs.clone();
+                    rev.reverse();
+                    observe(&mut acc, received, &rev, "long_lists_with_ties");
+                }
+            }
             // names that an escaping routine would rewrite, one edit away from the received string
             for h in HOSTILE {
                 for name in [format!("user{h}s_name"), format!("{h}leading"), format!("trailing{h}"), format!("{h}{h}twice{h}")] {
@@ -460,7 +483,7 @@ pub fn run(ctx: &Ctx) -> i32 {
         Finish {
             level: "exploration",
             rule: format!(
-                "exhaustive (seed independent): every (received, single accepted string) pair over the alphabet {{a,b,c}} with lengths 0..=6 (1093^2 = 1194649 calls); deterministic transpose+insert shapes at byte lengths 4..30. Plus {n_random} seeded random cases: received string of byte length 0,2,3,4,5,7,8,9,12,13,15,17,18,24,25,31 (optionally one edit more), over {{a..e, e-acute, CJK, emoji}} plus characters that escaping routines rewrite (quotes, backslash, tab, newline, NUL, DEL, a combining accent, a zero-width space, a back-tick); accepted list of 0..6 strings, each 0..6 random edits of the received string (insert, delete, substitute, adjacent transposition, transpose+insert-between, delete-between+transpose), an exact copy, a duplicate of an earlier entry, or an unrelated string. Oracle: own unrestricted Damerau-Levenshtein distance over chars (validated by breadth-first search over edits on all pairs of strings up to length 3), budget by BYTE length (<=3 never, 4-7:1, 8-12:2, 13-17:3, 18-24:4, else 5); output must be \"\" or exactly `did you mean `X`? ` with X the earliest accepted string at minimal distance within budget; \"\" iff none is within budget. Non-trivial = received string of >= 4 bytes with a non-empty accepted list; distinct = (received, accepted list)."
+                "exhaustive (seed independent): every (received, single accepted string) pair over the alphabet {{a,b,c}} with lengths 0..=6 (1093^2 = 1194649 calls); deterministic transpose+insert shapes at byte lengths 4..30. Plus {n_random} seeded random cases: received string of byte length 0,2,3,4,5,7,8,9,12,13,15,17,18,24,25,31 (optionally one edit more), over {{a..e, e-acute, CJK, emoji}} plus characters that escaping routines rewrite (quotes, backslash, tab, newline, NUL, DEL, a combining accent, a zero-width space, a back-tick); accepted list of 0..6 strings (one case in fifty: 33..80), each 0..6 random edits of the received string (insert, delete, substitute, adjacent transposition, transpose+insert-between, delete-between+transpose), an exact copy, a duplicate of an earlier entry, or an unrelated string. Oracle: own unrestricted Damerau-Levenshtein distance over chars (validated by breadth-first search over edits on all pairs of strings up to length 3), budget by BYTE length (<=3 never, 4-7:1, 8-12:2, 13-17:3, 18-24:4, else 5); output must be \"\" or exactly `did you mean `X`? ` with X the earliest accepted string at minimal distance within budget; \"\" iff none is within budget. Non-trivial = received string of >= 4 bytes with a non-empty accepted list; distinct = (received, accepted list)."
             ),
             exhaustive: true,
             assumptions: vec![
